@@ -974,13 +974,14 @@ vf::Blk* accept_foreign(State& S, void* p, size_t n) {
 }
 void forget_foreign(State& S, vf::Blk* b) { if (b != nullptr && b->heap < 0) S.foreign_live--; }
 
-struct ThreadBlock { void* p; size_t n; bool zero; };
+struct ThreadBlock { void* p; size_t n; bool zero; size_t a = 0; };
 static void do_thread_alloc_exit(State& S, std::vector<vf::Blk*>* group = nullptr) {
   size_t k = 1 + (size_t)below(S, 48);
   std::vector<ThreadBlock> out;
   uint64_t tseed = rnd(S);
   size_t cap = (S.cfg.size_cap ? (size_t)S.cfg.size_cap : 256 * KiB);
   vf_cur_what = "thread_alloc_exit";
+  const unsigned aligned_share = (S.cfg.profile == "aligned" ? 3 : 1);
   try {
   std::thread t([&]() {
     vf_rng_t r; vf_rng_seed(&r, tseed);
@@ -989,9 +990,13 @@ static void do_thread_alloc_exit(State& S, std::vector<vf::Blk*>* group = nullpt
     for (size_t i = 0; i < k; i++) {
       size_t n = (vf_rng_chance(&r, 3, 4) ? (size_t)vf_rng_below(&r, 2048) : (size_t)vf_rng_below(&r, cap));
       bool z = vf_rng_chance(&r, 1, 2) != 0;
-      void* p = (th != nullptr && (i & 1) ? (z ? mi_heap_zalloc(th, n) : mi_heap_malloc(th, n)) : (z ? mi_zalloc(n) : mi_malloc(n)));
+      // one block in four (aligned profile: three in four) is over-aligned: pointers INSIDE their blocks that are still live when the thread's pages are abandoned and adopted
+      size_t a = 0;
+      if (vf_rng_chance(&r, aligned_share, 4)) { a = (size_t)32 << vf_rng_below(&r, 8); if (n == 0) n = 1; if (n > 64 * KiB) n = 1 + n % (64 * KiB); }
+      void* p = (a != 0 ? (th != nullptr && (i & 1) ? (z ? mi_heap_zalloc_aligned(th, n, a) : mi_heap_malloc_aligned(th, n, a)) : (z ? mi_zalloc_aligned(n, a) : mi_malloc_aligned(n, a)))
+                        : (th != nullptr && (i & 1) ? (z ? mi_heap_zalloc(th, n) : mi_heap_malloc(th, n)) : (z ? mi_zalloc(n) : mi_malloc(n))));
       if (p == nullptr) continue;
-      ThreadBlock tb; tb.p = p; tb.n = n; tb.zero = z; out.push_back(tb);
+      ThreadBlock tb; tb.p = p; tb.n = n; tb.zero = z; tb.a = a; out.push_back(tb);
     }
     // free some of them again so that pages are partially used when the thread exits
     for (size_t i = 0; i < out.size(); ) { if (vf_rng_chance(&r, 1, 3)) { memset(out[i].p, 0xEE, out[i].n); mi_free(out[i].p); out[i] = out.back(); out.pop_back(); } else i++; }
@@ -1000,7 +1005,7 @@ static void do_thread_alloc_exit(State& S, std::vector<vf::Blk*>* group = nullpt
   t.join();
   } catch (const std::system_error& e) { vf_trip("harness", "", "cannot create a thread: %s", e.what()); }
   for (auto& tb : out) {
-    vf::Blk* nb = accept_block(S, tb.p, tb.n, -1, 0, 0, tb.zero, tb.zero ? EP_zalloc : EP_malloc);
+    vf::Blk* nb = accept_block(S, tb.p, tb.n, -1, tb.a, 0, tb.zero, tb.a != 0 ? (tb.zero ? EP_zalloc_aligned : EP_malloc_aligned) : (tb.zero ? EP_zalloc : EP_malloc));
     if (group != nullptr && nb != nullptr) group->push_back(nb);
     S.foreign_live++; S.n_foreign++;
   }
@@ -1031,6 +1036,22 @@ static void do_small_aligned_pattern(State& S) {
     }
   }
   for (vf::Blk* b : got) if (chance(S, 3, 4)) do_free(S, b);
+}
+
+// over-aligned blocks (pointers INSIDE their blocks) filling about three pages of one size class; then holes in the oldest page and plain allocations of that
+// class, so that the allocator searches its page queue and moves an older page to the front while interior pointers are live in it; then every interior pointer is freed
+static void do_interior_pages_pattern(State& S) {
+  const size_t a = (size_t)64 << below(S, 4);                              // 64 .. 512
+  const size_t n = 24 + (size_t)below(S, a);
+  size_t cnt = 3 * (64 * KiB / (n + a)) + 20; if (cnt > 1500) cnt = 1500;
+  std::vector<vf::Blk*> bs, extra;
+  vf_cur_what = "malloc_aligned";
+  for (size_t i = 0; i < cnt; i++) { void* p = mi_malloc_aligned(n, a); if (p == nullptr) continue; vf::Blk* b = accept_block(S, p, n, S.cur_default, a, 0, false, EP_malloc_aligned); if (b) bs.push_back(b); }
+  for (size_t i = 0; i < bs.size() / 3; i += 2) { do_free(S, bs[i]); bs[i] = nullptr; }
+  for (size_t k = 0; k < cnt / 3; k++) { vf::Blk* b = do_alloc(S, EP_malloc, n + a - 1); if (b) extra.push_back(b); }
+  for (size_t i = bs.size(); i > 1; i--) std::swap(bs[i - 1], bs[(size_t)below(S, i)]);
+  for (vf::Blk* b : bs) if (b) do_free(S, b);
+  for (vf::Blk* b : extra) do_free(S, b);
 }
 
 // several threads terminate one after the other, each leaving live blocks behind (several abandoned segments at the same time); then the blocks of one thread
@@ -1275,6 +1296,7 @@ void history_step(State& S) {
   if (S.cfg.profile == "heaps" && S.cfg.threads && !S.cfg.abandon_ok && (S.op_index % 500) == 250) do_tagged_destroy_pattern(S);
   if (S.cfg.threads && S.cfg.abandon_ok && (S.op_index % 600) == 300) do_force_abandon_pattern(S);
   if (S.cfg.profile == "aligned" && (S.op_index % 250) == 125) do_small_aligned_pattern(S);
+  if (S.cfg.profile == "aligned" && (S.op_index % 500) == 375) do_interior_pages_pattern(S);
   if (S.cfg.trace >= 2 && S.foreign_live == 0) check_conservation(S, "paranoid", "C12");
   if ((S.op_index & 255) == 255) check_conservation(S, "periodic", walkprof ? "C12" : "C12,C05,C10");
   if ((S.op_index & 511) == 511) { vf_cur_what = "verify_all"; S.sm.verify_all("periodic verification"); }
